@@ -59,6 +59,10 @@ def main():
         try:
             if c['kind'] == 'driver':
                 rec['res'] = c02_impl.driver(c)
+            elif c['kind'] == 'phi1d':
+                xx = np.array(c['grid'], dtype=float)
+                rec['res'] = [float(t) for t in PhiManip.phi_1D(xx, nu=c['nu'], theta0=c['theta0'], gamma=c['gamma'], h=c['h'], beta=c['beta'])]
+                rec['mask'] = None
             else:
                 rec['res'], rec['mask'] = program(c)
         except Exception as e:
